@@ -1,5 +1,6 @@
 import FcpptProofs.C11.Iter
 import FcpptProofs.C11.Members
+import FcpptProofs.C11.Hold
 set_option linter.unusedSimpArgs false
 set_option linter.unusedVariables false
 /-!
@@ -658,6 +659,96 @@ theorem unregister_only_on_death {st st' : Sig.State} {op : Sig.Op}
   | moveCtor s' s => simp only [Sig.step, bind, Except.bind] at hs; split at hs <;> cases hs; rfl
   | moveAssign s s2 => simp only [Sig.step, bind, Except.bind] at hs; split at hs <;> cases hs; rfl
   | delSig s => simp only [Sig.step, bind, Except.bind] at hs; split at hs <;> cases hs; rfl
+
+
+/-! ## Owners of connections: `auto_connection`, `optional_auto_connection`, `auto_connection_container`
+
+"…invokes exactly the callbacks whose connection object is still alive": a connection object is alive exactly as long as
+some owner holds its `auto_connection`. -/
+
+def holdRun (st : Hold.State) : List Hold.Op → M Hold.State
+  | [] => .ok st
+  | op :: ops => do
+    let st ← Hold.step st op
+    holdRun st ops
+
+/-- every operation of an owner history is valid where it is applied (who-holds-what is threaded by the pure `ownStep`) -/
+def holdValidRun (own : Nat → List Nat) (R : Rings) : List Hold.Op → Bool
+  | [] => true
+  | op :: ops => holdValid own R op && holdValidRun (ownStep own op) (holdStep own R op) ops
+
+def holdSpecRun (own : Nat → List Nat) (R : Rings) : List Hold.Op → Rings
+  | [] => R
+  | op :: ops => holdSpecRun (ownStep own op) (holdStep own R op) ops
+
+/-- **One owner operation** (connect into an owner, reset / erase / clear / overwrite an owner, move an `auto_connection`
+between owners, swap owners, any operation on whole signals): no fault, the connection lists stay represented, and
+afterwards the live connections are exactly the ones some owner holds, each in exactly one slot. -/
+theorem hold_step_inv {st : Hold.State} {R : Rings} (h : Owned st R) (op : Hold.Op)
+    (hv : holdValid st.own R op = true) :
+    ∃ st', Hold.step st op = .ok st' ∧ st'.own = ownStep st.own op ∧ Owned st' (holdStep st.own R op) :=
+  hold_step_owned h op hv
+
+/-- **Every owner history** -/
+theorem hold_history_inv {st : Hold.State} {R : Rings} (h : Owned st R) (ops : List Hold.Op)
+    (hv : holdValidRun st.own R ops = true) :
+    ∃ st', holdRun st ops = .ok st' ∧ Owned st' (holdSpecRun st.own R ops) := by
+  induction ops generalizing st R with
+  | nil => exact ⟨st, rfl, h⟩
+  | cons op ops ih =>
+    simp only [holdValidRun, Bool.and_eq_true] at hv
+    obtain ⟨s1, h1, o1, r1⟩ := hold_step_owned h op hv.1
+    obtain ⟨s2, h2, r2⟩ := ih r1 (by rw [o1]; exact hv.2)
+    exact ⟨s2, by simp [holdRun, h1, bind, Except.bind, h2], by simpa [holdSpecRun, o1] using r2⟩
+
+/-- **A signal invokes exactly the callbacks whose connection object is still held by someone**: after any owner history
+from the empty program, a call of signal `s` invokes callbacks of pairwise distinct connections, every one of them held by
+exactly one owner; conversely a connection that no owner holds is dead (not a node of any ring) and so not invoked by any
+signal. -/
+theorem invoked_iff_held (ops : List Hold.Op) (hv : holdValidRun Hold.State.empty.own [] ops = true) {st' : Hold.State}
+    (hrun : holdRun Hold.State.empty ops = .ok st') {s : Nat} {l : List Node}
+    (hm : members (holdSpecRun Hold.State.empty.own [] ops) s = some l) {fuel : Nat} (hf : l.length ≤ fuel) :
+    ∃ (xs : List Nat) (cs : List Sig.Conn), l = xs.map Node.elem ∧ xs.Nodup ∧ xs.map st'.sig.conn = cs.map some ∧
+      Sig.invoked st'.sig s fuel = .ok (cs.map (·.callback)) ∧
+      (∀ x ∈ xs, ∃ o, x ∈ st'.own o ∧ ∀ o', x ∈ st'.own o' → o' = o) ∧
+      (∀ x, (∀ o, x ∉ st'.own o) → x ∉ xs ∧ st'.sig.store.live (.elem x) = false) := by
+  obtain ⟨s2, h2, ow⟩ := hold_history_inv Owned_empty ops hv
+  rw [hrun] at h2; cases h2
+  obtain ⟨xs, cs, h1, h2, h3, h4⟩ := call_invokes_live_once_in_order ow.srep hm hf
+  have hr := members_mem hm
+  refine ⟨xs, cs, h1, h2, h3, h4, fun x hx => ?_, fun x hx => ?_⟩
+  · have : Node.elem x ∈ nodes (holdSpecRun Hold.State.empty.own [] ops) :=
+      mem_nodes.2 ⟨_, hr, by rw [h1]; simp [hx]⟩
+    obtain ⟨o, ho⟩ := (ow.live x).1 this
+    exact ⟨o, ho, fun o' ho' => ow.disj _ _ x ho' ho⟩
+  · have hdead : Node.elem x ∉ nodes (holdSpecRun Hold.State.empty.own [] ops) := fun hn => by
+      obtain ⟨o, ho⟩ := (ow.live x).1 hn
+      exact hx o ho
+    refine ⟨fun hxs => hdead (mem_nodes.2 ⟨_, hr, by rw [h1]; simp [hxs]⟩), ?_⟩
+    exact ow.srep.rep.dead_of_not_mem hdead
+
+/-- **Destroying several connections at once** (`clear()`, destruction of or assignment over a container): every one of
+them dies, nothing else does, and each unregister function runs exactly as many times as connections carrying it died —
+once per dying connection. -/
+theorem clear_unregisters_each_once {st : Hold.State} {R : Rings} (h : Owned st R) (o : Nat) :
+    ∃ st', Hold.step st (.clear o) = .ok st' ∧ st'.own o = [] ∧
+      st'.sig.conn = (fun x => if x ∈ st.own o then none else st.sig.conn x) ∧
+      (∀ u, st'.sig.unregCount u = st.sig.unregCount u +
+        ((st.own o).filter (fun x => decide ((st.sig.conn x).bind (·.unreg) = some u))).length) ∧
+      (∀ n, n ∈ nodes (holdStep st.own R (.clear o)) ↔ n ∈ nodes R ∧ ∀ x ∈ st.own o, n ≠ Node.elem x) := by
+  obtain ⟨s1, h1, _, c1, _, u1⟩ := killAll_rep h.srep (st.own o) (h.nodup o) (fun x hx => (h.live x).2 ⟨o, hx⟩)
+  refine ⟨{ sig := s1, own := Hold.setOwn st.own o [] }, by simp [Hold.step, h1, bind, Except.bind],
+    by simp [Hold.setOwn], c1, u1, fun n => ?_⟩
+  simp only [holdStep]
+  exact mem_nodes_eraseAll h.srep.rep.wf _
+
+/-- non-vacuity: an owner history with every kind of operation, over an `int` signal with unregister functions and a plain
+void signal; two connections die in one `clear` -/
+example : holdValidRun Hold.State.empty.own []
+    [.sig (.newSig 0 (some 1)), .connect 0 0 0 5 (some 1), .connect 1 1 0 6 (some 1), .sig (.newSig 1 none),
+     .connect 2 2 1 7 none, .transfer 0 0 16, .transfer 1 0 16, .transfer 2 0 16, .swap 16 17, .release 17 1,
+     .sig (.moveCtor 2 0), .connect 3 3 2 8 (some 2), .clear 0, .transfer 3 0 0, .clear 17, .sig (.delSig 2), .release 0 0] = true := by
+  decide
 
 /-- non-vacuity: a signal history with connect, death, move, move-assignment -/
 example : sigValidRun [] [.newSig 0 (some 1), .connect 0 0 5 (some 1), .connect 1 0 6 none, .moveCtor 1 0,
